@@ -49,8 +49,8 @@ ASSUMPTIONS = [
     'and the full grid) are counted, not judged on the value',
     'Gaussian priors are driven on u in [0.01, 0.99] (u = 0 / 1 map to +-inf, no atmosphere)',
 ]
-_Q = {'sequence': 100, 'exact': 14, 'reuse': 16, 'pair': 12}
-_T = {'sequence': 700, 'exact': 70, 'reuse': 120, 'pair': 100}
+_Q = {'sequence': 100, 'exact': 14, 'reuse': 16, 'pair': 12, 'intobs': 6}
+_T = {'sequence': 700, 'exact': 70, 'reuse': 120, 'pair': 100, 'intobs': 40}
 BUDGET = {
     'quick': [dict(name='boundscheck', env={'NUMBA_BOUNDSCHECK': '1'}, shards=6, cases=_Q)],
     'thorough': [dict(name='boundscheck', env={'NUMBA_BOUNDSCHECK': '1'}, shards=16, cases=_T)],
@@ -58,7 +58,7 @@ BUDGET = {
 REQUIRED = dict(
     monitors=['prior-callback', 'loglike-equals-gaussian', 'callback-never-raises', 'invalid-never-finite',
               'same-vector-same-value', 'sampled-space-order', 'ndim-handed-to-sampler', 'nan-model-never-finite'],
-    classes=['history:a-hundred-points-earlier-ones-again', 'width-kind:3', 'model:nan-in-every-bin-without-rejection', 'bins:two-share-a-centre', 'callback-argument:one-buffer-refilled-in-place', 'callback-argument:fresh-per-point', 'sampler:nestle', 'sampler:multinest', 'sampler:polychord',
+    classes=['observation:integer-array', 'history:a-hundred-points-earlier-ones-again', 'width-kind:3', 'model:nan-in-every-bin-without-rejection', 'bins:two-share-a-centre', 'callback-argument:one-buffer-refilled-in-place', 'callback-argument:fresh-per-point', 'sampler:nestle', 'sampler:multinest', 'sampler:polychord',
              'prior:mode-linear', 'prior:mode-log', 'prior:Uniform', 'prior:LogUniform', 'prior:Gaussian',
              'prior:LogGaussian', 'cube:interior', 'cube:face', 'cube:corner',
              'invalid:chem>1', 'invalid:inverted-nodes', 'invalid:guillot',
@@ -567,6 +567,48 @@ def _short_script(rng, decls, obs, n=3):
     return script, metas
 
 
+def wl_intobs(ctx, rng):
+    """An observation handed over as an INTEGER array: whole-micron wavelengths, counts and whole-number error bars in three
+    columns (widths derived by the loader).  The sampler is handed the Gaussian log-likelihood of the model binned on the
+    bins this observation reports, for those numbers, as for any other observation."""
+    from taurex.data.spectrum.array import ArraySpectrum
+    sampler = SAMPLERS[(ctx.case['index'] + ctx.shard) % 3]
+    tag = 'io%d' % ctx.case['index']
+    for attempt in range(8):
+        spec, model, decls, layout = setup_case(ctx, rng, sampler, False, tag, ndim=int(rng.integers(1, 4)))
+        truth = L.shadow_eval(spec, [])
+        if 'rejected' in truth or not np.all(np.isfinite(truth['depth'])):
+            continue
+        wn = np.asarray(truth['wn'], dtype=float)
+        k0, k1 = int(math.ceil(1e4 / wn[-1] * 1.3)) + 1, int(math.floor(1e4 / wn[0] / 1.3)) - 1
+        if k1 - k0 < 4:
+            continue
+        K = int(min(k1 - k0, rng.integers(4, 11)))
+        ks = np.arange(k0, k0 + K) + int(rng.integers(0, k1 - k0 - K + 1))
+        rows = np.stack([ks, rng.integers(0, 3, K), rng.integers(1, 4, K)]).T.astype(np.int64)
+        obs = ArraySpectrum(rows[rng.permutation(K)].copy())
+        c, w = np.asarray(obs.wavenumberGrid, dtype=float), np.asarray(obs.binWidths, dtype=float)
+        sel = (wn >= c.min() - w.max()) & (wn <= c.max() + w.max())
+        if sel.sum() < 2 or float(np.max(np.diff(wn[sel]))) * 4.5 > float(np.min(w)):
+            continue
+        break
+    else:
+        ctx.event('domain-skip:no-world-with-whole-micron-bins')
+        return
+    ctx.check('integer-observation-reaches-the-optimizer', np.asarray(obs.spectrum).dtype.kind == 'i', dtype=str(np.asarray(obs.spectrum).dtype))
+    ctx.observe('observation:integer-array')
+    layout2 = dict(layout, K=K, c=c, w=w, width_kind=0)
+    y, sigma = np.asarray(obs.spectrum, dtype=float), np.asarray(obs.errorBar, dtype=float)
+    observe_setup(ctx, spec, decls, layout2, sampler)
+    script, metas = _short_script(rng, decls, obs, n=3)
+    ctx.feature(sampler=sampler, names=[d['name'] for d in decls], priors=[d['kind'] for d in decls], workload='intobs')
+    call = run_sampler(ctx, sampler, obs, model, decls, script, tag, rng)
+    if call is None:
+        return
+    judge(ctx, sampler, spec, decls, layout2, y, sigma, script, metas, call, obs)
+    ctx.sig('intobs', sampler, tuple(d['name'] for d in decls), K, int(ks[0]), round(spec['planet_mass'], 6))
+
+
 def wl_reuse(ctx, rng):
     """One optimizer object used for several fits (as a script that loops over observations or settings does): after
     the first fit it is re-pointed to another observation (other bins, other error bars) with set_observed, and/or its
@@ -694,7 +736,7 @@ def wl_pair(ctx, rng):
             round(spec['planet_mass'], 6))
 
 
-WORKLOADS = {'sequence': wl_sequence, 'exact': wl_exact, 'reuse': wl_reuse, 'pair': wl_pair}
+WORKLOADS = {'intobs': wl_intobs, 'sequence': wl_sequence, 'exact': wl_exact, 'reuse': wl_reuse, 'pair': wl_pair}
 
 LEVEL_TEXT = ('Exploration by runtime monitoring at the sampler boundary: the callbacks the unmodified nestle / MultiNest / '
               'PolyChord wrappers hand to the sampler entry points are captured by recording doubles and driven, in each '
